@@ -34,7 +34,7 @@ def _float_probs(draw, k):
 @st.composite
 def stopping_games(draw, min_inner=1, max_inner=8, dyadic=None, rewards=REWARD_POOL,
                    max_actions=4, dead_bias=True, max_finals=3, max_sinks=3,
-                   acyclic=False, owners=None):
+                   acyclic=False, owners=None, dup_names=False):
     """A game that is stopping BY CONSTRUCTION.
 
     Abstract inner states 0..ni-1 carry a rank (their abstract index); every
@@ -105,6 +105,10 @@ def stopping_games(draw, min_inner=1, max_inner=8, dyadic=None, rewards=REWARD_P
         else:
             succ = [draw(st.sampled_from(higher)) for _ in range(k)]
             tr = [(names[i], ids[t]) for i, t in enumerate(succ)]
+            if dup_names and k >= 2 and draw(st.integers(0, 4)) == 0:
+                # two transitions of one state carrying the SAME action label (legal, if unusual)
+                i, j = draw(st.lists(st.integers(0, k - 1), min_size=2, max_size=2, unique=True))
+                tr[j] = (tr[i][0], tr[j][1])
         players[ids[a]] = pl
         rew[ids[a]] = draw(st.sampled_from(rewards))
         tl[ids[a]] = tr
